@@ -9,7 +9,8 @@ assert s.count(old) >= 1, "pattern not found"
 open(p, 'w').write(s.replace(old, new, 1))
 try:
     for pr in props:
-        r = subprocess.run(['/verif/check', pr], capture_output=True, text=True)
+        import os
+        r = subprocess.run(['/verif/check', pr], capture_output=True, text=True, env=dict(os.environ, VERIF_EVIDENCE_DIR='/tmp/verif-mut-evidence', VERIF_NO_REPLAY='1'))
         print(pr, 'exit', r.returncode)
         print('\n'.join(l for l in (r.stdout + r.stderr).split('\n') if l.strip())[:1500])
 finally:
